@@ -3,6 +3,7 @@
 from __future__ import annotations
 
 import math
+import os
 import random
 import subprocess
 import time
@@ -523,7 +524,10 @@ def prove_smt(goal, hyps=(), timeout_ms=10000, extra_z3=None, want=None, second_
     except NotImplementedError as e:
         return Verdict(UNKNOWN, "SMT", detail=str(e), seconds=time.time() - t0)
     s = z3.Solver()
-    s.set("timeout", timeout_ms)
+    import shutil as _sh
+    # with the command-line z3 available as a second opinion (different strategy, full budget), the incremental
+    # in-process attempt is capped: what it cannot do in 8 s it rarely does in 60
+    s.set("timeout", min(timeout_ms, 8000) if (second_opinion and _sh.which("z3-new")) else timeout_ms)
     for h in hs:
         s.add(h)
     for c in ctx.side:
@@ -559,11 +563,18 @@ def prove_smt(goal, hyps=(), timeout_ms=10000, extra_z3=None, want=None, second_
             wit[k] = _z3_value(z3, m, v)
         return Verdict(REFUTED, "SMT:z3-" + z3.get_version_string(), witness=wit, detail="model of hyps ∧ ¬goal", seconds=dt)
     detail = "z3: " + s.reason_unknown()
+    if os.environ.get("PYVC_DUMP_SMT"):
+        os.makedirs(os.environ["PYVC_DUMP_SMT"], exist_ok=True)
+        open(os.path.join(os.environ["PYVC_DUMP_SMT"], f"unknown_{os.getpid()}_{int(time.time() * 1000) % 100000}.smt2"), "w").write(s.to_smt2())
     if second_opinion:
         smt2 = s.to_smt2()
-        for cmd in (["/usr/bin/cvc5", "--lang=smt2", f"--tlimit={max(timeout_ms, 20000)}"], ["/usr/bin/z3", "-in", f"-T:{max(timeout_ms, 20000) // 1000}"]):
+        # the same z3 through its command line first: a non-incremental check-sat picks the nlsat-based strategy for
+        # non-linear real arithmetic, which the incremental solver object used above does not
+        import shutil
+        z3cli = shutil.which("z3-new")
+        for cmd in ([[z3cli, "-in", f"-T:{max(timeout_ms, 20000) // 1000}"]] if z3cli else []) + [["/usr/bin/cvc5", "--lang=smt2", f"--tlimit={max(timeout_ms, 20000)}"], ["/usr/bin/z3", "-in", f"-T:{max(timeout_ms, 20000) // 1000}"]]:
             try:
-                p = subprocess.run(cmd if cmd[0].endswith("z3") else cmd + ["-"], input=smt2, capture_output=True, text=True, timeout=max(timeout_ms, 20000) / 1000 + 10)
+                p = subprocess.run(cmd if "z3" in os.path.basename(cmd[0]) else cmd + ["-"], input=smt2, capture_output=True, text=True, timeout=max(timeout_ms, 20000) / 1000 + 10)
                 out = p.stdout.strip().splitlines()[0] if p.stdout.strip() else ""
             except Exception as e:  # noqa: BLE001
                 out = f"error {e}"
